@@ -86,8 +86,9 @@ class Contract:
     def __init__(self, params=None, requires=(), ensures=(), raises=None, loops=None, theory=None,
                  inline=(), opaque=(), ghosts=None, public_ensures=(), modifies=(), result=None,
                  fields=None, pure=True, frame=(), no_raise=False, mode='unbounded', defaults=None,
-                 ensures_exc=None, result_kind=None, notes='', ladder=None):
+                 ensures_exc=None, result_kind=None, notes='', ladder=None, lemmas=None):
         self.ladder = ladder or []
+        self.lemmas = lemmas or []          # inductive lemmas proved at the return point (see Exec.prove_lemmas)
         self.params = params or {}
         self.requires = list(requires)
         self.ensures = list(ensures)
@@ -254,9 +255,14 @@ class Exec:
         if oc[0] == Outcome.RETURN:
             s.env['result'] = oc[1]
             node = oc[2]
+            self.prove_lemmas(s, node)
+            cut = []
             for i, e in enumerate(self.contract.ensures):
                 self.emit(s, 'post#%d' % i, self.eval_spec(e, s), node,
-                          e if isinstance(e, str) else (getattr(e, '__doc__', None) or 'postcondition given as a function in the contract file'))
+                          e if isinstance(e, str) else (getattr(e, '__doc__', None) or 'postcondition given as a function in the contract file'),
+                          extra_hyps=cut)
+                if isinstance(e, str):
+                    cut = cut + [to_z3(self.eval_spec(e, s, role='hyp'))]
             for exc, cond in self.contract.ensures_exc.items():
                 self.emit(s, 'post-noexc:%s' % exc, bnot(self.eval_spec(cond, s, entry=True)), node,
                           'normal return implies not (%s)' % cond)
@@ -270,6 +276,41 @@ class Exec:
                 self.emit(s, 'no-raise:%s' % exc, z3.BoolVal(False), node, 'unexpected raise of %s' % exc)
         else:
             raise Unsupported('loop control outside loop')
+
+    def prove_lemmas(self, s, node):
+        """inductive lemmas at the return point: for `forall k in [lo, hi]: stmt(k)` the obligations are the base case and the
+        step for an arbitrary k (up: stmt(k) => stmt(k+1); down: stmt(k) => stmt(k-1)); the induction scheme itself is trusted.
+        A proved lemma is available (as a quantified hypothesis) to the later lemmas and to the postconditions."""
+        for lem in self.contract.lemmas:
+            var, direction = lem['var'], lem.get('direction', 'up')
+            lo = self.eval_spec_value(lem['lo'], s)
+            hi = self.eval_spec_value(lem['hi'], s)
+            nonempty = to_z3(s_le(lo, hi))
+            base_at = lo if direction == 'up' else hi
+            s0 = s.copy()
+            s0.assume(nonempty)
+            self.emit(s0, 'lemma:%s/base' % lem['name'], self.eval_spec(lem['stmt'], s0, extra={var: base_at}), node, lem['stmt'])
+            k = z3.Int(fresh_name(var))
+            s1 = s.copy()
+            if direction == 'up':
+                s1.assume(z3.And(to_z3(s_le(lo, k)), to_z3(s_lt(k, hi))))
+                nxt = k + 1
+            else:
+                s1.assume(z3.And(to_z3(s_lt(lo, k)), to_z3(s_le(k, hi))))
+                nxt = k - 1
+            s1.assume(self.eval_spec(lem['stmt'], s1, extra={var: k}, role='hyp'))
+            self.emit(s1, 'lemma:%s/step' % lem['name'], self.eval_spec(lem['stmt'], s1, extra={var: nxt}), node, lem['stmt'])
+            q = z3.Int(fresh_name(var))
+            body = self.eval_spec(lem['stmt'], s, extra={var: q}, role='hyp')
+            from . import lib as _lib
+            pats = _lib.infer_patterns(to_z3(body), [q])
+            guard = z3.And(to_z3(s_le(lo, q)), to_z3(s_le(q, hi)))
+            try:
+                allq = z3.ForAll([q], z3.Implies(guard, to_z3(body)), patterns=pats) if pats else z3.ForAll([q], z3.Implies(guard, to_z3(body)))
+            except z3.Z3Exception:
+                allq = z3.ForAll([q], z3.Implies(guard, to_z3(body)))
+            s.assume(allq)
+            self.assumed.append('induction scheme for lemma %s (base and step are proved obligations)' % lem['name'])
 
     # ---------------------------------------------------------------------------------------
     # parameters
@@ -1008,8 +1049,10 @@ class Exec:
                 if oc2 is None or oc2[0] == Outcome.CONTINUE:
                     self.exec_ghost(spec.ghost_post, s2)
                     s2.env[cname] = cnt + 1
+                    cut = []      # an invariant already shown preserved may be used for the following ones (sequential cut)
                     for i, inv in enumerate(spec.inv):
-                        self.emit(s2, 'inv-pres#%d.%d' % (k, i), self.eval_spec(inv, s2), node, inv)
+                        self.emit(s2, 'inv-pres#%d.%d' % (k, i), self.eval_spec(inv, s2), node, inv, extra_hyps=cut)
+                        cut = cut + [to_z3(self.eval_spec(inv, s2, role='hyp'))]
                     for bn, (bufid, head) in head_content.items():
                         # frame: cells outside the (next) region keep the content they had at the loop head,
                         # and the region only grows
@@ -2007,6 +2050,9 @@ class Exec:
         for r in con.requires:
             c = self.eval_spec(r, st, extra=env)
             self.emit(st, 'pre-call:%s' % qual.split('.')[-1], to_z3(c), node, r)
+        for exc, cond in con.ensures_exc.items():
+            c = self.eval_spec(cond, st, extra=env)
+            self.emit(st, 'pre-call:%s-does-not-raise-%s' % (qual.split('.')[-1], exc), to_z3(bnot(c)), node, 'not (%s)' % cond)
         if con.result is None:
             raise Unsupported('contract of %s lacks a result constructor for call sites' % qual)
         res = con.result(self, st, env)
